@@ -173,6 +173,25 @@ theorem invert_update_one_left (w : World F) (i1 i2 : Nat) (d1 : Datum (State F)
   · rw [h.2, setState_slot]; simp
   · intro j hj; rw [h.2, setState_slot]; simp [hj]
 
+/-- one side reads, the other has no information (both directions): the empty side receives the negated read
+with the read's time and the side that had the information is **not** rewritten -/
+theorem invert_update_one (w : World F) (i1 i2 : Nat) (d : Datum (State F)) :
+    (w.getState i1 = none → w.getState i2 = some d →
+      ((Invert.update w i1 i2).t i1).state = some ⟨d.time, State.neg d.value⟩ ∧
+      ((Invert.update w i1 i2).t i2).state = (w.t i2).state) ∧
+    (w.getState i1 = some d → w.getState i2 = none →
+      ((Invert.update w i1 i2).t i2).state = some ⟨d.time, State.neg d.value⟩ ∧
+      ((Invert.update w i1 i2).t i1).state = (w.t i1).state) := by
+  constructor
+  · intro h1 h2
+    have hne : i2 ≠ i1 := by intro e; rw [e, h1] at h2; cases h2
+    obtain ⟨_, ha, hb⟩ := invert_update_one_right w i1 i2 d h1 h2
+    exact ⟨ha, hb i2 hne⟩
+  · intro h1 h2
+    have hne : i1 ≠ i2 := by intro e; rw [e, h2] at h1; cases h1
+    obtain ⟨_, ha, hb⟩ := invert_update_one_left w i1 i2 d h1 h2
+    exact ⟨ha, hb i1 hne⟩
+
 /-- both sides read: both slots are written, stamped with the newer time, with `n = (s1 − s2)/2` and `−n` -/
 theorem invert_update_both (w : World F) (i1 i2 : Nat) (d1 d2 : Datum (State F)) (hd : i1 ≠ i2)
     (h1 : w.getState i1 = some d1) (h2 : w.getState i2 = some d2) :
@@ -266,6 +285,25 @@ theorem gear_update_one_left (ratio : F) (w : World F) (i1 i2 : Nat) (d1 : Datum
   refine ⟨frame_trans (frame_setState i2 _ (by simp) (frame_refl _ w)) h.1, ?_, ?_⟩
   · rw [h.2, setState_slot]; simp
   · intro j hj; rw [h.2, setState_slot]; simp [hj]
+
+/-- one side reads, the other has no information (both directions): side 2 receives `read·ratio`, resp. side 1
+receives `read/ratio`, with the read's time; the side that had the information is **not** rewritten -/
+theorem gear_update_one (ratio : F) (w : World F) (i1 i2 : Nat) (d : Datum (State F)) :
+    (w.getState i1 = some d → w.getState i2 = none →
+      ((GearTrain.update ratio w i1 i2).t i2).state = some ⟨d.time, State.mulF d.value ratio⟩ ∧
+      ((GearTrain.update ratio w i1 i2).t i1).state = (w.t i1).state) ∧
+    (w.getState i1 = none → w.getState i2 = some d →
+      ((GearTrain.update ratio w i1 i2).t i1).state = some ⟨d.time, State.divF d.value ratio⟩ ∧
+      ((GearTrain.update ratio w i1 i2).t i2).state = (w.t i2).state) := by
+  constructor
+  · intro h1 h2
+    have hne : i1 ≠ i2 := by intro e; rw [e, h2] at h1; cases h1
+    obtain ⟨_, ha, hb⟩ := gear_update_one_left ratio w i1 i2 d h1 h2
+    exact ⟨ha, hb i1 hne⟩
+  · intro h1 h2
+    have hne : i2 ≠ i1 := by intro e; rw [e, h1] at h2; cases h2
+    obtain ⟨_, ha, hb⟩ := gear_update_one_right ratio w i1 i2 d h1 h2
+    exact ⟨ha, hb i2 hne⟩
 
 /-- the two values a gear train writes when both sides read: with `s = x + y·r`,
 `(s / (r·r + 1), (s·r) / (r·r + 1))` -/
@@ -1119,6 +1157,8 @@ example : (wq.getState 2).map (·.time) = some 9 := rfl
 example := invert_update_none wq 3 5 rfl rfl
 example := invert_update_one_right wq 3 0 _ rfl rfl
 example := invert_update_one_left wq 0 3 _ rfl rfl
+example := (invert_update_one wq 3 0 _).1 rfl rfl
+example := (invert_update_one wq 0 3 _).2 rfl rfl
 example := invert_update_both wq 0 2 _ _ (by decide) rfl rfl
 example := invert_satisfies_constraint wq 0 2 _ _ (by decide) rfl rfl
 example := invert_least_squares wq 0 2 _ _ (by decide) rfl rfl
@@ -1129,6 +1169,8 @@ example := (invert_one_sided_constraint wq 0 3 _).2 rfl rfl
 example := gear_update_none (2 : ℚ) wq 3 5 rfl rfl
 example := gear_update_one_right (2 : ℚ) wq 3 0 _ rfl rfl
 example := gear_update_one_left (2 : ℚ) wq 0 3 _ rfl rfl
+example := (gear_update_one (2 : ℚ) wq 0 3 _).1 rfl rfl
+example := (gear_update_one (2 : ℚ) wq 3 0 _).2 rfl rfl
 example := gear_update_both (2 : ℚ) wq 0 2 _ _ (by decide) rfl rfl
 example := gear_least_squares (2 : ℚ) wq 0 2 _ _ (by decide) rfl rfl
 example := gear_satisfies_constraint (2 : ℚ) wq 0 2 _ _ (by decide) rfl rfl
